@@ -27,6 +27,9 @@ changes in the future.
 
 */
 use std::ops::{Bound, RangeBounds};
+#[cfg(nucleo_verif)]
+use crate::verif::atomic::{self, AtomicBool, Ordering};
+#[cfg(not(nucleo_verif))]
 use std::sync::atomic::{self, AtomicBool, Ordering};
 use std::sync::Arc;
 use std::time::Duration;
@@ -39,6 +42,8 @@ use crate::worker::Worker;
 pub use nucleo_matcher::{chars, Config, Matcher, Utf32Str, Utf32String};
 
 mod boxcar;
+#[cfg(nucleo_verif)]
+pub mod verif;
 mod par_sort;
 pub mod pattern;
 mod worker;
